@@ -83,6 +83,11 @@ pub fn u32_from_be_bytes(b: [u8; 4]) -> (r: u32)
     ensures r as int == ((b[0] as int * 256 + b[1] as int) * 256 + b[2] as int) * 256 + b[3] as int,
 { u32::from_be_bytes(b) }
 
+#[verifier::external_body]
+pub fn u64_from_be_bytes(b: [u8; 8]) -> (r: u64)
+    ensures r as int == ((((((b[0] as int * 256 + b[1] as int) * 256 + b[2] as int) * 256 + b[3] as int) * 256 + b[4] as int) * 256 + b[5] as int) * 256 + b[6] as int) * 256 + b[7] as int,
+{ u64::from_be_bytes(b) }
+
 /// native-endian = little-endian 16 bit word (stated assumption: little-endian target; the three `from_ne_bytes`
 /// value specs are proved for this target by full-domain Kani harnesses in kani/src/h_vxlib.rs)
 pub open spec fn ne16(lo: u8, hi: u8) -> int { lo as int + 256 * (hi as int) }
